@@ -14,9 +14,17 @@
           stuck <index>        the step at <index> is not a step of the timed machine here (this IS
                                the verdict of the timed verbs: the harness builds the schedule from
                                what it observed)
-    holds <up> <down> <closedC> <closedT>
+    holds <up> <down> <closedC> <closedT> [<legs>]
         up/down = sent,got,pfx(0|1),fin(0|1),eof(0|1)   what the endpoints observed
-        → true | false <first clause of `accept` that fails>
+        legs    = client,target   1 = `closeWriter` can half-close that leg, 0 = it cannot (`acceptL`)
+        → true | false <first clause of `accept` / `acceptL` that fails>
+    hrun <cfg> <legs> <leave|close> <steps>   execute a schedule on the machine with leg capabilities
+        → the `ok …` line of `run` (accept= is `acceptL` of what the endpoints see) followed by
+          shownU= shownD= cut=
+    ltrun <cfg> <period>,<slack> <read>,<dial>,<write> <cleared|inherited> <steps>
+        the timed machine with the limits of the phases before the tunnel (0 = no limit); steps as for
+        `trun`, plus le (a limit expires)
+        → the `ok …` line of `trun` followed by deadline=<n|-> aborted= cut=   |   stuck <index>
 -/
 import FwdVerif.Model.C03
 
@@ -103,7 +111,85 @@ def decodeDirObs (s : String) : Option DirObs :=
     pure { sent := a, got := b, pfx := p, fin := f, eof := e }
   | _ => none
 
+def decodeCap (s : String) : Option Cap :=
+  (boolOf s).map fun b => if b then Cap.halfClose else Cap.none
+
+def decodeLegs (s : String) : Option Legs :=
+  match splitList s with
+  | [a, b] => do
+    let a ← decodeCap a
+    let b ← decodeCap b
+    pure { client := a, target := b }
+  | _ => none
+
+def decodeCwPolicy : String → Option CwPolicy
+  | "leave" => some .leave
+  | "close" => some .closeInstead
+  | _ => none
+
+def hrunIdx (c : Cfg) (L : Legs) (pol : CwPolicy) : HState → List Step → Nat → Except Nat HState
+  | h, [], _ => .ok h
+  | h, st :: rest, i =>
+    match hstep c L pol h st with
+    | none => .error i
+    | some h' => hrunIdx c L pol h' rest (i + 1)
+
+def optOfNat (n : Nat) : Option Nat := if n = 0 then none else some n
+
+def decodeLimits (s : String) : Option Limits :=
+  match (splitList s).mapM natOf with
+  | some [r, d, w] => some { read := optOfNat r, dial := optOfNat d, write := optOfNat w }
+  | _ => none
+
+def decodeDeadlinePolicy : String → Option DeadlinePolicy
+  | "cleared" => some .cleared
+  | "inherited" => some .inherited
+  | _ => none
+
+def decodeLStep (s : String) : Option LStep :=
+  if s = "le" then some .limitExpire else (decodeTStep s).map .t
+
+def decodeLSteps (s : String) : Option (List LStep) := (splitList2 s).mapM decodeLStep
+
+def lrunIdx (c : Cfg) (τ : Timing) (lim : Limits) (pol : DeadlinePolicy) :
+    LState → List LStep → Nat → Except Nat LState
+  | l, [], _ => .ok l
+  | l, st :: rest, i =>
+    match lstep c τ lim pol l st with
+    | none => .error i
+    | some l' => lrunIdx c τ lim pol l' rest (i + 1)
+
 def handle : List String → String
+  | ["hrun", cfg, legs, pol, steps] =>
+    match decodeCfg cfg, decodeLegs legs, decodeCwPolicy pol, decodeSteps steps with
+    | some c, some L, some pol, some sts =>
+      match hrunIdx c L pol hinit sts 0 with
+      | .ok h =>
+        let s := h.s
+        s!"ok phase={phaseName s.phase} up={hexOfBytes s.up.delivered} down={hexOfBytes s.down.delivered} " ++
+        s!"eofU={ofBool s.up.eof} eofD={ofBool s.down.eof} finU={ofBool s.up.fin} finD={ofBool s.down.fin} " ++
+        s!"closedC={ofBool s.closedC} closedT={ofBool s.closedT} expired={ofBool s.expired} " ++
+        s!"dropped={s.dropped} early={hexOfBytes s.early} availU={s.up.avail} availD={s.down.avail} " ++
+        s!"accept={ofBool (acceptL L (hobserve c h))} shownU={ofBool h.shownU} shownD={ofBool h.shownD} " ++
+        s!"cut={ofBool h.cut}"
+      | .error i => s!"stuck {i}"
+    | _, _, _, _ => "bad-op"
+  | ["ltrun", cfg, timing, limits, pol, steps] =>
+    match decodeCfg cfg, decodeTiming timing, decodeLimits limits, decodeDeadlinePolicy pol, decodeLSteps steps with
+    | some c, some τ, some lim, some pol, some sts =>
+      match lrunIdx c τ lim pol linit sts 0 with
+      | .ok l =>
+        showState c l.t.s ++
+          s!" now={l.t.now} armedAt={showOptNat l.t.armedAt} expiredAt={showOptNat l.t.expiredAt}" ++
+          s!" deadline={showOptNat l.deadline} aborted={ofBool l.aborted} cut={ofBool l.cutByLimit}"
+      | .error i => s!"stuck {i}"
+    | _, _, _, _, _ => "bad-op"
+  | ["holds", up, down, cc, ct, legs] =>
+    match decodeDirObs up, decodeDirObs down, boolOf cc, boolOf ct, decodeLegs legs with
+    | some u, some d, some cc, some ct, some L =>
+      let o : Obs := { up := u, down := d, closedC := cc, closedT := ct }
+      if acceptL L o then "true" else s!"false {rejectReasonL L o}"
+    | _, _, _, _, _ => "bad-op"
   | ["run", cfg, steps] =>
     match decodeCfg cfg, decodeSteps steps with
     | some c, some sts =>
